@@ -68,6 +68,12 @@ func checkC20(r *Run) {
 				if !ok {
 					why, ok = reviewed[name+"|"+cal]
 				}
+				if !ok {
+					// a single-use helper belongs to its caller (extract-function refactor)
+					if owner, _ := r.P.attribute(fn, b); owner != fn {
+						why, ok = reviewed[FnName(owner)+"|"+cal]
+					}
+				}
 				r.Check("C20-R1", name+" uses "+cal, r.P.Pos(c.Pos()), ok, "truncating/replacing file primitive outside file.SaveBinary: not in the reviewed table ("+why+")")
 			}
 		}
